@@ -177,6 +177,10 @@ def plan(tier):
             dict(name='declared-Ko0-Kc1', fn='h_declared', depth=10, budget_s=420, cfg=DECL_QUICK,
                  bounds='4 decorators x bare outer (stars only) x callee <=1 named x <=1 fixed positional x <=1 keyword name x pristine/absent/foreign stars x emulate x bound/unbound (partial=True: identity harness and thorough tier)',
                  min_nontrivial=500, must_reach=['sound', 'exact', 'inspect-sees-the-same-signature']),
+            dict(name='declared-function-Ko1', fn='h_declared', depth=9, budget_s=300,
+                 cfg=dict(DECL_QUICK, Ko=1, Kc=1, kmax=0, nmax=0, route_list=['declared-function']),
+                 bounds='forwards_to_function x outer with <=1 named parameter of its own (any kind) x callee <=1 named x pristine/absent/foreign stars x emulate',
+                 min_nontrivial=500, must_reach=['sound', 'exact']),
         ]
     return [
         dict(name='identity-total3', fn='h_identity', depth=10, budget_s=3000, cfg=dict(K=2, total=3, names=1, stars=True),
